@@ -46,6 +46,8 @@ def equity_and_used(w, bal):
 
 def borrow(ctx, path="create_loan", lend="margin", earlier=1, margin_req="0.5", min_interest="0", kind="limit",
            side="buy"):
+    if margin_req == "symbolic":
+        margin_req = ctx.dec("margin_requirement", 2, lo=0, hi=300)
     init = {"BTC": Decimal(0)} if earlier == "short" else None
     w = World(ctx, props=(), lend=lend, npairs=2, closes=None, margin_req=margin_req, min_interest=min_interest,
               subscribe=False, namounts=2, init=init, fee="none" if earlier == "short" else "pctmin")
@@ -124,6 +126,16 @@ def jobs(tier):
                       max_paths=200000, split=32))
     js.append(Job("NoLoans", "borrow", dict(lend="none", earlier=0), validate_every=10, sample_every=20))
     if tier == "thorough":
+        for earlier in (0, 1):
+            js.append(Job("create_loan symbolic margin requirement earlier=%d" % earlier, "borrow",
+                          dict(path="create_loan", margin_req="symbolic", earlier=earlier), validate_every=20,
+                          sample_every=50, max_paths=500000, split=64, prove_timeout=60000))
+        for req in ("0.25", "2"):
+            for kind in ("limit", "market", "stop"):
+                for side in ("buy", "sell"):
+                    js.append(Job("auto-borrow %s %s req=%s (thorough)" % (kind, side, req), "borrow",
+                                  dict(path="order", margin_req=req, earlier=1, kind=kind, side=side),
+                                  validate_every=40, sample_every=100, max_paths=500000, split=32))
         for req in ("0.25", "0.5"):
             js.append(Job("create_loan req=%s two earlier loans" % req, "borrow",
                           dict(path="create_loan", margin_req=req, earlier=2), validate_every=50, sample_every=100,
